@@ -50,7 +50,7 @@ JudgeOcc(r, P, o) ==
                   THEN <<V(r.id, "deviation", "ImportedFileSpanShadowsSymbols", "go-to-definition leads to the file instead of " \o ToString(d) \o at)>>
                 ELSE <<V(r.id, "violation", "", "go-to-definition leads to " \o ToString(o.def) \o ", the scoping rules bind it to " \o ToString(d) \o at)>> IN
   defrow
-  \o (IF occ.def THEN Row(r, "references (with declaration)", at, SeqSet(o.refsT) \ U, Refs(P, d, TRUE), Explain(r, P, occ, ord, d, SeqSet(o.refsT) \ U, Refs(P, d, TRUE)))
+  \o (IF occ.def /\ d # NoNode THEN Row(r, "references (with declaration)", at, SeqSet(o.refsT) \ U, Refs(P, d, TRUE), Explain(r, P, occ, ord, d, SeqSet(o.refsT) \ U, Refs(P, d, TRUE)))
                       \o Row(r, "references (without declaration)", at, SeqSet(o.refsF) \ U, Refs(P, d, FALSE), Explain(r, P, occ, ord, d, SeqSet(o.refsF) \ U, Refs(P, d, FALSE)))
                       \o Row(r, "references vs inverse of observed go-to-definition", at, SeqSet(o.refsF) \ ({WholeFile} \cup U), obsUses \ U, Explain(r, P, occ, ord, d, SeqSet(o.refsF) \ ({WholeFile} \cup U), obsUses \ U))
                       \o Row(r, "highlights", at, SeqSet(o.hl) \ U, Highlights(P, d, occ.file), Explain(r, P, occ, ord, d, SeqSet(o.hl) \ U, Highlights(P, d, occ.file)))
